@@ -1,8 +1,8 @@
 package main
 
 // PAIR / DUAL engines: extraction of accounting effects (target access path, operation, amount)
-// per arm (the status facts under which the effect executes), and comparison of two sibling
-// functions as inverses, or of struct/vector twins as moving in lock-step.
+// per arm (the labelled status facts under which the effect executes), comparison of two sibling
+// functions as inverses, and of struct/vector twins as moving in lock-step.
 
 import (
 	"fmt"
@@ -14,15 +14,19 @@ import (
 )
 
 type Effect struct {
-	Target string // access path of the mutated location
-	Op     string // "+" / "-" / "ins" / "del" / "set"
-	Amount string // term of the amount (or key for ins/del)
-	Arm    string // canonical arm key
-	Pos    token.Pos
-	Via    string // method or operator through which it is applied
+	TargetT *Term
+	Target  string // canonical access path of the mutated location (params as p<i>, map keys erased)
+	Op      string // "+" / "-" / "ins" / "del" / "set"
+	AmountT *Term
+	Amount  string // shape of the amount (roots erased)
+	Arm     string // canonical arm key (sorted labels)
+	Guard   string // all facts at the site (used by DUAL to require the same guard)
+	Pos     token.Pos
+	Via     string
+	Block   *ssa.BasicBlock
 }
 
-func (e Effect) key() string { return e.Arm + " | " + e.Target + " " + e.Op + " " + e.Amount }
+func (e Effect) key() string { return "[" + e.Arm + "] " + e.Target + " " + e.Op + " " + e.Amount }
 
 var addSubMethods = map[string]string{
 	"Add": "+", "Sub": "-",
@@ -30,69 +34,191 @@ var addSubMethods = map[string]string{
 	"AddResourceRequirements": "+", "SubResourceRequirements": "-",
 }
 
-// armOf canonicalises the facts at an instruction restricted to those selected by armFact.
-func armOf(fs FactSet, armFact func(Fact) bool) string {
+// canon renders a location: params as p<i>, lookup keys erased, extract/commaok stripped.
+func canon(t *Term) string {
+	if t == nil {
+		return "_"
+	}
+	switch t.Op {
+	case "param":
+		return fmt.Sprintf("p%d", t.paramIndex())
+	case "free":
+		return "f:" + t.Name
+	case "field":
+		return canon(t.Args[0]) + "." + t.Name
+	case "lookup", "index":
+		return canon(t.Args[0]) + "[_]"
+	case "extract":
+		return canon(t.Args[0])
+	case "load":
+		return canon(t.Args[0])
+	case "call":
+		var as []string
+		for _, a := range t.Args {
+			as = append(as, canon(a))
+		}
+		return shortName(t.Name) + "(" + strings.Join(as, ",") + ")"
+	case "const":
+		return t.Name
+	}
+	return "_"
+}
+
+// shape renders an amount with its roots erased (so siblings naming their variables differently compare equal).
+func shape(t *Term) string {
+	if t == nil {
+		return "_"
+	}
+	switch t.Op {
+	case "field":
+		return shape(t.Args[0]) + "." + t.Name
+	case "call":
+		var as []string
+		for _, a := range t.Args {
+			as = append(as, shape(a))
+		}
+		return shortName(t.Name) + "(" + strings.Join(as, ",") + ")"
+	case "const":
+		return t.Name
+	case "bin":
+		return "(" + shape(t.Args[0]) + t.Name + shape(t.Args[1]) + ")"
+	case "un":
+		return t.Name + shape(t.Args[0])
+	case "load", "extract":
+		return shape(t.Args[0])
+	}
+	return "_"
+}
+
+func shortName(n string) string {
+	if i := strings.LastIndex(n, "."); i >= 0 {
+		return n[i+1:]
+	}
+	return n
+}
+
+// armLabeler maps a fact to an arm label ("" = not part of the arm).
+type armLabeler func(f Fact) string
+
+// statusArm labels equality tests on a .Status field ("Status==<const>") and calls of the
+// pod_status predicates on any status value (by predicate name), with polarity.
+func statusArm(f Fact) string {
+	t := f.T
+	lab := ""
+	if t.Op == "bin" && t.Name == "==" && t.Args[1].Op == "const" && (strings.HasSuffix(t.Args[0].String(), ".Status") || strings.Contains(strings.ToLower(t.Args[0].String()), "status")) {
+		lab = "Status==" + t.Args[1].Name
+	} else if t.Op == "call" && t.Fn != nil && relPkg(funcPkgPath(t.Fn)) == pkgPodStatus {
+		lab = t.Fn.Name()
+	}
+	if lab == "" {
+		return ""
+	}
+	if !f.Pol {
+		return "!" + lab
+	}
+	return lab
+}
+
+func armOf(fs FactSet, lab armLabeler) string {
 	if fs.Bottom {
 		return "⊥"
 	}
 	var pos, neg []string
 	for _, f := range fs.sorted() {
-		if !armFact(f) {
+		l := lab(f)
+		if l == "" {
 			continue
 		}
-		if f.Pol {
-			pos = append(pos, f.String())
+		if strings.HasPrefix(l, "!") {
+			neg = append(neg, l)
 		} else {
-			neg = append(neg, f.String())
+			pos = append(pos, l)
 		}
 	}
 	// a positive equality on the discriminator subsumes the negatives accumulated by a switch ladder
-	var eq []string
 	for _, p := range pos {
-		if strings.Contains(p, " == ") {
-			eq = append(eq, p)
-		}
-	}
-	if len(eq) > 0 {
-		sort.Strings(eq)
-		var rest []string
-		for _, p := range pos {
-			if !strings.Contains(p, " == ") {
-				rest = append(rest, p)
+		if strings.HasPrefix(p, "Status==") {
+			var keep []string
+			for _, q := range pos {
+				keep = append(keep, q)
 			}
+			sort.Strings(keep)
+			return strings.Join(dedup(keep), " & ")
 		}
-		return strings.Join(append(eq, rest...), " & ")
 	}
-	all := append(pos, neg...)
+	all := dedup(append(pos, neg...))
 	sort.Strings(all)
 	return strings.Join(all, " & ")
 }
 
-// extractEffects lists the accounting effects of fn (not descending into callees).
-// targetOK filters locations of interest (by term); armFact selects the facts that form the arm.
-func extractEffects(fx *Facts, fn *ssa.Function, targetOK func(*Term) bool, armFact func(Fact) bool) []Effect {
+func dedup(xs []string) []string {
+	seen := map[string]bool{}
+	var out []string
+	for _, x := range xs {
+		if !seen[x] {
+			seen[x] = true
+			out = append(out, x)
+		}
+	}
+	return out
+}
+
+// extractEffects lists the accounting effects of fn; repo callees that are methods on the same
+// receiver (or take it as an argument) are inlined `inline` levels deep, their effects attributed
+// to the arm of the call site.
+func extractEffects(fx *Facts, fn *ssa.Function, targetOK func(*Term) bool, lab armLabeler, inline int) []Effect {
 	var out []Effect
+	emit := func(in ssa.Instruction, tgt, am *Term, op, via string) {
+		fs := fx.FactsAt(in)
+		out = append(out, Effect{TargetT: tgt, Target: canon(tgt), Op: op, AmountT: am, Amount: shape(am), Arm: armOf(fs, lab), Guard: fs.String(), Pos: instrPos(in), Via: via, Block: in.Block()})
+	}
 	for _, b := range fn.Blocks {
 		for _, in := range b.Instrs {
 			switch x := in.(type) {
 			case ssa.CallInstruction:
 				com := x.Common()
-				if cal := com.StaticCallee(); cal != nil && cal.Signature.Recv() != nil && len(com.Args) >= 1 {
+				cal := com.StaticCallee()
+				if cal != nil && cal.Signature.Recv() != nil && len(com.Args) >= 1 {
 					if op, ok := addSubMethods[cal.Name()]; ok {
 						tgt := termOf(com.Args[0])
 						if targetOK(tgt) {
-							var am []string
-							for _, a := range com.Args[1:] {
-								am = append(am, termOf(a).String())
+							var am *Term
+							if len(com.Args) > 1 {
+								am = termOf(com.Args[1])
 							}
-							out = append(out, Effect{Target: tgt.String(), Op: op, Amount: strings.Join(am, ","), Arm: armOf(fx.FactsAt(in), armFact), Pos: instrPos(in), Via: cal.Name()})
+							emit(in, tgt, am, op, cal.Name())
 						}
+						continue
 					}
 				}
 				if bi, ok := com.Value.(*ssa.Builtin); ok && bi.Name() == "delete" && len(com.Args) == 2 {
 					tgt := termOf(com.Args[0])
 					if targetOK(tgt) {
-						out = append(out, Effect{Target: tgt.String(), Op: "del", Amount: termOf(com.Args[1]).String(), Arm: armOf(fx.FactsAt(in), armFact), Pos: instrPos(in), Via: "delete"})
+						emit(in, tgt, mk("const", "key"), "del", "delete")
+					}
+					continue
+				}
+				if inline > 0 && cal != nil && cal.Blocks != nil && strings.HasPrefix(funcPkgPath(cal), modPath) {
+					sub := extractEffects(fx, cal, func(*Term) bool { return true }, lab, inline-1)
+					act := callActuals(x)
+					fs := fx.FactsAt(in)
+					for _, e := range sub {
+						tgt := e.TargetT.subst(act)
+						if !targetOK(tgt) {
+							continue
+						}
+						arm := armOf(fs, lab)
+						if e.Arm != "" {
+							if arm != "" {
+								arm += " & "
+							}
+							arm += e.Arm
+						}
+						var am *Term
+						if e.AmountT != nil {
+							am = e.AmountT.subst(act)
+						}
+						out = append(out, Effect{TargetT: tgt, Target: canon(tgt), Op: e.Op, AmountT: am, Amount: shape(am), Arm: arm, Guard: fs.String(), Pos: instrPos(in), Via: cal.Name() + "→" + e.Via, Block: in.Block()})
 					}
 				}
 			case *ssa.Store:
@@ -101,19 +227,18 @@ func extractEffects(fx *Facts, fn *ssa.Function, targetOK func(*Term) bool, armF
 					continue
 				}
 				op, am := arithOn(x.Val, tgt)
-				out = append(out, Effect{Target: tgt.String(), Op: op, Amount: am, Arm: armOf(fx.FactsAt(in), armFact), Pos: instrPos(in), Via: "store"})
+				emit(in, tgt, am, op, "store")
 			case *ssa.MapUpdate:
 				m := termOf(x.Map)
-				if !targetOK(m) {
+				loc := mk("lookup", "", m, termOf(x.Key))
+				if !targetOK(loc) && !targetOK(m) {
 					continue
 				}
-				loc := mk("lookup", "", m, termOf(x.Key))
 				op, am := arithOn(x.Value, loc)
 				if op == "set" {
-					op, am = "ins", termOf(x.Key).String()
-					out = append(out, Effect{Target: m.String(), Op: op, Amount: am, Arm: armOf(fx.FactsAt(in), armFact), Pos: instrPos(in), Via: "map-insert"})
+					emit(in, m, mk("const", "key"), "ins", "map-insert")
 				} else {
-					out = append(out, Effect{Target: loc.String(), Op: op, Amount: am, Arm: armOf(fx.FactsAt(in), armFact), Pos: instrPos(in), Via: "map-arith"})
+					emit(in, loc, am, op, "map-arith")
 				}
 			}
 		}
@@ -122,27 +247,26 @@ func extractEffects(fx *Facts, fn *ssa.Function, targetOK func(*Term) bool, armF
 }
 
 // arithOn classifies a stored value relative to its own location: loc+v → ("+", v), loc-v → ("-", v), else set.
-func arithOn(v ssa.Value, loc *Term) (string, string) {
+func arithOn(v ssa.Value, loc *Term) (string, *Term) {
+	// ptr.To(*x ± k) idiom
+	if c, ok := v.(*ssa.Call); ok {
+		if cal := c.Common().StaticCallee(); cal != nil && cal.Name() == "To" && len(c.Common().Args) == 1 && strings.HasSuffix(funcPkgPath(cal), "/ptr") {
+			return arithOn(c.Common().Args[0], loc)
+		}
+	}
 	if bo, ok := v.(*ssa.BinOp); ok && (bo.Op == token.ADD || bo.Op == token.SUB) {
 		x, y := termOf(bo.X), termOf(bo.Y)
-		if stripExtract(x).String() == loc.String() {
+		if canon(x) == canon(loc) {
 			if bo.Op == token.ADD {
-				return "+", y.String()
+				return "+", y
 			}
-			return "-", y.String()
+			return "-", y
 		}
-		if bo.Op == token.ADD && stripExtract(y).String() == loc.String() {
-			return "+", x.String()
+		if bo.Op == token.ADD && canon(y) == canon(loc) {
+			return "+", x
 		}
 	}
-	return "set", termOf(v).String()
-}
-
-func stripExtract(t *Term) *Term {
-	if t.Op == "extract" {
-		return t.Args[0]
-	}
-	return t
+	return "set", termOf(v)
 }
 
 func invOp(op string) string {
@@ -160,33 +284,22 @@ func invOp(op string) string {
 }
 
 // pairInverse compares effects of f and g: per arm, effects(f) must be the multiset inverse of effects(g).
-// Returns human-readable mismatches.
 func pairInverse(ef, eg []Effect) []string {
 	count := map[string]int{}
-	pos := map[string]token.Pos{}
 	for _, e := range ef {
 		count[e.key()]++
-		pos[e.key()] = e.Pos
 	}
 	for _, e := range eg {
 		inv := e
 		inv.Op = invOp(e.Op)
 		count[inv.key()]--
-		if _, ok := pos[inv.key()]; !ok {
-			pos[inv.key()] = e.Pos
-		}
 	}
 	var out []string
-	var keys []string
-	for k := range count {
-		keys = append(keys, k)
-	}
-	sort.Strings(keys)
-	for _, k := range keys {
+	for _, k := range sortedKeys(count) {
 		if n := count[k]; n > 0 {
-			out = append(out, fmt.Sprintf("effect [%s] has no inverse in the sibling (x%d)", k, n))
+			out = append(out, fmt.Sprintf("effect %s has no inverse in the sibling (x%d)", k, n))
 		} else if n < 0 {
-			out = append(out, fmt.Sprintf("sibling undoes [%s] which is never done (x%d)", k, -n))
+			out = append(out, fmt.Sprintf("the sibling undoes %s which is never done (x%d)", k, -n))
 		}
 	}
 	return out
@@ -195,30 +308,73 @@ func pairInverse(ef, eg []Effect) []string {
 func effectsSummary(es []Effect) string {
 	var s []string
 	for _, e := range es {
-		arm := e.Arm
-		if arm == "" {
-			arm = "always"
-		}
-		s = append(s, fmt.Sprintf("[%s] %s %s %s", arm, e.Target, e.Op, e.Amount))
+		s = append(s, e.key())
 	}
 	sort.Strings(s)
 	return strings.Join(s, "; ")
 }
 
-// armsHave checks that, under arm (substring match on the arm key; "" = unconditional arm key ""),
-// there is an effect op on a target whose access path ends with the given field.
-func hasEffect(es []Effect, armContains string, exactArm bool, targetSuffix, op string) bool {
+// hasEffect: an effect with exactly this arm on a target ending with the suffix.
+func hasEffect(es []Effect, arm string, targetSuffix, op string) bool {
 	for _, e := range es {
-		if exactArm {
-			if e.Arm != armContains {
-				continue
-			}
-		} else if !strings.Contains(e.Arm, armContains) {
-			continue
-		}
-		if strings.HasSuffix(e.Target, targetSuffix) && e.Op == op {
+		if e.Arm == arm && strings.HasSuffix(e.Target, targetSuffix) && e.Op == op {
 			return true
 		}
 	}
 	return false
+}
+
+// dualCheck: every effect on a field X that has a sibling field XVector on the same base must be
+// accompanied, under the same guard, by an effect with the same sign on XVector, and vice versa.
+// Returns the number of pairs and the unpaired effects.
+func dualCheck(es []Effect, hasTwin func(base *Term, field string) bool) (int, []Effect) {
+	type k struct{ guard, target, op string }
+	byKey := map[k][]Effect{}
+	for _, e := range es {
+		byKey[k{e.Guard, e.Target, e.Op}] = append(byKey[k{e.Guard, e.Target, e.Op}], e)
+	}
+	pairs := 0
+	var bad []Effect
+	for _, e := range es {
+		if e.Op != "+" && e.Op != "-" {
+			continue
+		}
+		if e.TargetT.Op != "field" {
+			continue
+		}
+		name := e.TargetT.Name
+		base := e.TargetT.Args[0]
+		var twin string
+		if strings.HasSuffix(name, "Vector") {
+			twin = strings.TrimSuffix(name, "Vector")
+		} else {
+			twin = name + "Vector"
+		}
+		if !hasTwin(base, twin) {
+			continue
+		}
+		tw := canon(base) + "." + twin
+		a := len(byKey[k{e.Guard, e.Target, e.Op}])
+		b := len(byKey[k{e.Guard, tw, e.Op}])
+		if a != b {
+			bad = append(bad, e)
+		} else if !strings.HasSuffix(name, "Vector") {
+			pairs++
+		}
+	}
+	return pairs, bad
+}
+
+// linearSigns decomposes an additive expression term into leaf → sign (+1/-1), leaves rendered by canon.
+func linearSigns(t *Term, sign int, out map[string]int) {
+	if t.Op == "bin" && (t.Name == "+" || t.Name == "-") {
+		linearSigns(t.Args[0], sign, out)
+		s2 := sign
+		if t.Name == "-" {
+			s2 = -sign
+		}
+		linearSigns(t.Args[1], s2, out)
+		return
+	}
+	out[canon(t)] += sign
 }
